@@ -269,9 +269,167 @@ def r02j(prog: Program, chk: Check) -> None:
     chk.ob("R02.j", f"{m}::promoted-types::no-extra", not extra, f"pyanalyze/{m}.py", f"promoted-type rows without a matching artificial base: {sorted(extra)} (narrowing would widen)")
 
 
+# ------------------------------------------------------------------- R02.k
+def r02k(prog: Program, chk: Check) -> None:
+    import itertools
+
+    from . import narrow_model as nmod
+
+    chk.rule(
+        "R02.k",
+        "the narrowing predicates as a finite model: IsAssignablePredicate (as used for isinstance), EqualsPredicate (== and is) and InPredicate, with _non_instances and "
+        "is_universally_assignable, are interpreted from their AST on every static value over a universe of 12 runtime objects (bools, ints, a float, strings, None, an enum) "
+        "and 7 classes, for every tested class / pair of classes / literal / pair of literals and both polarities; assignability is the membership oracle of the universe "
+        "(with int -> float promotion). Every object of the value for which the run-time condition has the branch's polarity stays in the narrowed value, and the narrowed "
+        "value contains nothing outside the original value and the tested one",
+        floor=6,
+    )
+    nm = nmod.NarrowModel(prog)
+    U, T = nmod.UNIVERSE, nmod.TYPES
+    vals = [("AnyValue", None)] + [("KnownValue", o) for o in U] + [("TypedValue", t) for t in T]
+    classes: Dict[str, List[dict]] = {}
+    counts: Dict[str, int] = {}
+    total = 0
+
+    def check(kind: str, fields: dict, cond, tested, label: str) -> None:
+        nonlocal total
+        for vk, vp in vals:
+            V = nm.value(vk, vp)
+            mv = nmod.members(V)
+            for pos in (True, False):
+                total += 1
+                pol = "positive" if pos else "negative"
+                res = nm.apply(kind, fields, V, pos)
+                d = {"condition": label, "branch": pol, "value": nmod.describe(V)}
+                k_keep = f"{kind}::{pol}::keeps-every-object-that-takes-the-branch"
+                k_wide = f"{kind}::{pol}::never-widens"
+                counts[k_keep] = counts.get(k_keep, 0) + 1
+                counts[k_wide] = counts.get(k_wide, 0) + 1
+                classes.setdefault(k_keep, [])
+                classes.setdefault(k_wide, [])
+                if isinstance(res, tuple):
+                    classes[k_keep].append({**d, "crash": res[1]})
+                    continue
+                mr = nmod.members(res) if res is not None else frozenset()
+                for i in sorted(mv):
+                    c = cond(U[i])
+                    if c is not None and c == pos and i not in mr:
+                        classes[k_keep].append({**d, "object": repr(U[i]), "narrowed_to": nmod.describe(res)})
+                        break
+                extra = mr - mv - tested
+                if extra:
+                    classes[k_wide].append({**d, "narrowed_to": nmod.describe(res), "new_objects": [repr(U[i]) for i in sorted(extra)]})
+
+    for r in (1, 2):
+        for ts in itertools.combinations(T, r):
+            pat = nm.unite([nm.value("TypedValue", t) for t in ts])
+            check("IsAssignablePredicate", dict(pattern_value=pat, positive_only=False, runtime_check=True), lambda o, ts=ts: isinstance(o, ts), nmod.members(pat), "isinstance(x, (" + ", ".join(t.__name__ for t in ts) + "))")
+    for v in U:
+        for use_is in (False, True):
+            def cond(o, v=v, use_is=use_is):
+                if use_is:
+                    return o is v
+                if o == v and type(o) is not type(v):
+                    return None  # cross-type equality is outside the property's quantifier
+                return o == v
+
+            check("EqualsPredicate", dict(pattern_val=v, use_is=use_is), cond, frozenset(i for i, o in enumerate(U) if nmod.same(o, v)), ("x is " if use_is else "x == ") + repr(v))
+    for vs in itertools.combinations(U, 2):
+        if type(vs[0]) is not type(vs[1]):
+            continue
+
+        def cond_in(o, vs=vs):
+            if any(o == v and type(o) is not type(v) for v in vs):
+                return None
+            return o in vs
+
+        check("InPredicate", dict(pattern_vals=vs, pattern_type=type(vs[0])), cond_in, frozenset(i for i, o in enumerate(U) if any(nmod.same(o, v) for v in vs)), "x in " + repr(vs))
+    chk.model_evaluations += total
+    chk.analysed["narrowing_model"] = {"applications": total, "universe": [repr(o) for o in U], "classes": [t.__name__ for t in T]}
+    site = f"pyanalyze/predicates.py"
+    for k, bad in sorted(classes.items()):
+        bad.sort(key=lambda d: (len(d["condition"]), len(d["value"]), repr(d)))
+        chk.ob("R02.k", f"predicates::narrowing-model::{k}", not bad, site, f"{counts[k]} applications, {len(bad)} failing" + (f"; smallest: {bad[0]}" if bad else ""), witness=bad[:5])
+
+
+# ------------------------------------------------------------------- R02.l
+def r02l(prog: Program, chk: Check) -> None:
+    import itertools
+
+    from . import narrow_model as nmod
+
+    chk.rule(
+        "R02.l",
+        "Constraint.apply_to_value as a finite model: the is_instance, is_value and is_truthy arms (truthiness verdicts given by the oracle of the universe) and their "
+        "one_of / all_of compositions are interpreted from the AST on every static value of the same universe, both polarities: no object that takes the branch is lost, "
+        "nothing outside the value and the tested class / literal appears; for compositions the result contains the union (one_of) resp. the intersection (all_of) of what the parts keep",
+        floor=8,
+    )
+    nm = nmod.NarrowModel(prog)
+    U, T = nmod.UNIVERSE, nmod.TYPES
+    vals = [("AnyValue", None)] + [("KnownValue", o) for o in U] + [("TypedValue", t) for t in T]
+    conds = []
+    for t in T:
+        conds.append(("is_instance", t, (lambda o, t=t: isinstance(o, t)), frozenset(i for i, o in enumerate(U) if isinstance(o, t)), f"isinstance(x, {t.__name__})"))
+    for v in U:
+        conds.append(("is_value", v, (lambda o, v=v: o is v), frozenset(i for i, o in enumerate(U) if o is v), f"x is {v!r}"))
+    conds.append(("is_truthy", None, (lambda o: bool(o)), frozenset(), "bool(x)"))
+    classes: Dict[str, List[dict]] = {}
+    counts: Dict[str, int] = {}
+    total = 0
+
+    def judge(key: str, V, res, keep_if, tested, d) -> None:
+        nonlocal total
+        total += 1
+        k_keep, k_wide = f"{key}::keeps-every-object-that-takes-the-branch", f"{key}::never-widens"
+        for k in (k_keep, k_wide):
+            counts[k] = counts.get(k, 0) + 1
+            classes.setdefault(k, [])
+        if isinstance(res, tuple):
+            classes[k_keep].append({**d, "crash": res[1]})
+            return
+        mv = nmod.members(V)
+        mr = frozenset().union(*[nmod.members(r) for r in res]) if res else frozenset()
+        for i in sorted(mv):
+            if keep_if(U[i]) and i not in mr:
+                classes[k_keep].append({**d, "object": repr(U[i]), "narrowed_to": [nmod.describe(r) for r in res]})
+                break
+        extra = mr - mv - tested
+        if extra:
+            classes[k_wide].append({**d, "narrowed_to": [nmod.describe(r) for r in res], "new_objects": [repr(U[i]) for i in sorted(extra)]})
+
+    for ct, payload, cond, tested, label in conds:
+        for vk, vp in vals:
+            V = nm.value(vk, vp)
+            for pos in (True, False):
+                res = nm.apply_constraint(nm.constraint(ct, pos, payload), V)
+                judge(f"{ct}::{'positive' if pos else 'negative'}", V, res, (lambda o, cond=cond, pos=pos: cond(o) == pos), tested, {"condition": label, "branch": "positive" if pos else "negative", "value": nmod.describe(V)})
+    # compositions of two atomic constraints
+    atoms = [c for c in conds if c[0] != "is_truthy"][:10] + [conds[-1]]
+    for (c1, c2) in itertools.combinations(atoms, 2):
+        for p1, p2 in itertools.product((True, False), repeat=2):
+            k1 = nm.constraint(c1[0], p1, c1[1])
+            k2 = nm.constraint(c2[0], p2, c2[1])
+            for vk, vp in vals:
+                V = nm.value(vk, vp)
+                d = {"condition": f"{'' if p1 else 'not '}{c1[4]} <op> {'' if p2 else 'not '}{c2[4]}", "value": nmod.describe(V)}
+                res = nm.apply_constraint(nm.constraint("one_of", True, [k1, k2]), V)
+                judge("one_of", V, res, (lambda o: c1[2](o) == p1 or c2[2](o) == p2), c1[3] | c2[3], {**d, "op": "or"})
+                res = nm.apply_constraint(nm.constraint("all_of", True, [k1, k2]), V)
+                judge("all_of", V, res, (lambda o: c1[2](o) == p1 and c2[2](o) == p2), c1[3] | c2[3], {**d, "op": "and"})
+    chk.model_evaluations += total
+    chk.analysed["constraint_model"] = {"applications": total}
+    site = prog.site("stacked_scopes", prog.func("stacked_scopes", "Constraint.apply_to_value"))
+    for k, bad in sorted(classes.items()):
+        bad.sort(key=lambda d: (len(d["condition"]), len(d["value"]), repr(d)))
+        chk.ob("R02.l", f"stacked_scopes::constraint-model::{k}", not bad, site, f"{counts[k]} applications, {len(bad)} failing" + (f"; smallest: {bad[0]}" if bad else ""), witness=bad[:5])
+
+
 def run(prog: Program, chk: Check) -> None:
     r02hi(prog, chk)
     r02j(prog, chk)
+    r02k(prog, chk)
+    r02l(prog, chk)
     r02f(prog, chk)
     r02g(prog, chk)
     r02a(prog, chk)
@@ -416,6 +574,8 @@ def _sum_unannotate(it: Interp, call: ast.Call, env: Dict[str, frozenset]) -> Op
 R02B_LEAF_EXCEPTIONS = {
     ("patma::LenPredicate.__call__", "tuple"): "guarded by `cleaned.typ is tuple`: the constructed tuple type is the input's own type",
     ("patma::LenPredicate.__call__", "False"): "is_many flag of a SequenceValue member",
+    ("stacked_scopes::Constraint.apply_to_value", "_PROMOTED_TYPES"): "the types promoted to the declared type are members of it (int is accepted where float is declared); the table's agreement with TypeObject's artificial bases is R02.j, and R02.l shows on the model that nothing outside the value appears",
+    ("predicates::_non_instances", "_PROMOTED_TYPES"): "same table, same reason",
 }
 
 
